@@ -14,7 +14,7 @@ from .common import VERIF
 
 # which checks must notice the return of each defect (the property recorded in known_findings.jsonl, plus others where
 # the defect is known to show)
-EXTRA = {}
+EXTRA = {'666255d': ['C01'], 'de0ee60': ['C12']}
 
 
 def sh(cmd, cwd=None, timeout=7200):
